@@ -369,7 +369,7 @@ Qed.
 Lemma ok_for m p var lst x ie : (csize (NFor p var lst x ie) <= S n)%nat -> CmdOK m (NFor p var lst x ie).
 Proof.
   intros Hsz Hwf Hrt l2.
-  destruct Hwf as (-> & Hwl & Hwx & Hwie). cbn [cmd_toks app]. do 2 eexists. split; [reflexivity|]. split; [cbn; tauto|].
+  destruct Hwf as (-> & (Hwl & _) & Hwx & Hwie). cbn [cmd_toks app]. do 2 eexists. split; [reflexivity|]. split; [cbn; tauto|].
   destruct ie as [y|].
   - norm_app. cbn [close_tag app].
     eapply Tag_for with (c := 36) (rd := T_rdelim) (u := kw pit_Ifempty 0);
